@@ -27,12 +27,15 @@ ENV = {}
 
 
 class OneCellHooks:
+    def __init__(self, public=False):
+        self.public = public
+
     def init(self, eng, st):
         st.ghost['L_spec'] = z3.RealVal(0)
         st.ghost['n_grad_sites'] = z3.IntVal(0)
 
     def loop_item(self, eng, st, itv, k, node):
-        if isinstance(node, ast.For) and ast.unparse(node.iter).replace(' ', '') == 'self.groups[cl]':
+        if isinstance(node, ast.For) and ast.unparse(node.iter).replace(' ', '') in ('self.groups[cl]', 'self.measurements'):
             q, y, s = eng.fresh('Q', R), eng.fresh('y', R), eng.fresh('noise', R)
             st.assume(s > 0)                                  # "positive noise scales"
             return E.Tup([E.Num(q, npy=True), E.Num(y, npy=True), E.Num(s, npy=True), E.Obj(eng.fresh('proj', V))], 'tuple')
@@ -57,7 +60,11 @@ class OneCellHooks:
             # (also when that tuple is a permutation of the whole clique: Q and y follow the measurement's order)
             src = (getattr(recv, 'ghost', None) or {}).get('projection_of')
             ok = E.FALSE
-            if src is not None and src[1] is not None and 'mu' in st.env and 'proj' in st.env:
+            if self.public:
+                # PublicInference: marginals are keyed by the measurements' own attribute tuples, no projection in between
+                if 'marginals' in st.env and 'cl' in st.env:
+                    ok = eng.to_V(recv) == eng.to_V(eng.ev(st, ast.parse('marginals[cl]', mode='eval').body))
+            elif src is not None and src[1] is not None and 'mu' in st.env and 'proj' in st.env:
                 ok = z3.And(eng.to_V(src[0]) == eng.to_V(st.env['mu']), eng.to_V(src[1]) == eng.to_V(st.env['proj']))
             eng.oblige(st, 'site/query-applies-to-marginal-projected-on-the-measurement-attributes@L%d' % node.lineno, ok, kind='call-site')
             return E.Num(eng.fresh('x', R), npy=True)         # the one cell of the projected marginal
@@ -112,6 +119,15 @@ def _contract(cls):
     )
 
 
+def _contract_public():
+    c = _contract('PublicInference')
+    c['uses_locals'] = ['Q', 'x', 'y', 'noise', 'mu', 'loss', 'cl']
+    c['loops'] = {1: dict(invariant=['loss == ghost("L_spec")'])}
+    return c
+
+
+PUBLIC_ITEMS = [('src/mbi/public_inference.py', 'PublicInference._marginal_loss', _contract_public(), 'C19')]
+
 ITEMS = [('src/mbi/inference.py', 'FactoredInference._marginal_loss', _contract('FactoredInference'), 'C04'),
          ('src/mbi/local_inference.py', 'LocalInference._marginal_loss', _contract('LocalInference'), 'C18')]
 
@@ -145,9 +161,15 @@ def replay(prop, ob):
     else:
         from mbi import FactoredInference as Est
     dom = Domain(['a'], [1])
-    est = Est(dom, metric=metric)
     cl = ('a',)
-    est.groups = {cl: [(np.array([[Q]]), np.array([y]), noise, cl)]}
+    if 'PublicInference' in ob.name:
+        import pandas as pd
+        from mbi import Dataset, PublicInference as Est
+        est = Est(Dataset(pd.DataFrame({'a': [0]}), dom), metric=metric)
+        est.measurements = [(np.array([[Q]]), np.array([y]), noise, cl)]
+    else:
+        est = Est(dom, metric=metric)
+        est.groups = {cl: [(np.array([[Q]]), np.array([y]), noise, cl)]}
 
     def run(xv):
         loss, grad = est._marginal_loss({cl: Factor(dom.project(cl), np.array([xv], dtype=float))})
